@@ -155,22 +155,16 @@ class ProgProp:
                 "hascompare": sorted(cats["hascompare"])})
         return ctx.cache[key]
 
-    def judge_asm_old(self, case, ctx):
-        """2.3-2.6 / 3.0-3.5 byte code laid out by G-ASM, decoded by a transcription of those interpreters' fetch
-        loop (1- and 3-byte instructions, 16-bit operands, EXTENDED_ARG supplies bits 16-31)"""
+    def old_file(self, ctx, v, items):
+        """(table, co_code, reference decode, labels, header, payload, string kind) of an assembled old-version file"""
         import struct
         from vf.magicreg import final_magics
         from vf.ref import refmarshal as rm
-        res = Result()
-        v = case.get("v")
-        if v not in OLD_ASM:
-            res.reject = "malformed-case"
-            return res
+        case = {"items": items}
         tab = self.old_tables(ctx, v)
         for it in case.get("items") or [None]:
             if not isinstance(it, dict) or it.get("op") not in tab.opmap:
-                res.reject = "malformed-asm: unknown opcode"
-                return res
+                return None
         co_code, starts, info = ga.assemble(tab, case["items"])
         # reference decode
         ref = []
@@ -207,6 +201,24 @@ class ProgProp:
         tree[1]["co_freevars"] = rm.names_tuple(["f%d" % k for k in range(8)], py2)
         payload, _ = rm.encode(tree, base_v)
         hdr = struct.pack("<H", OLD_PYPY[v] if v in OLD_PYPY else final_magics()[vt]) + b"\r\n" + b"\x01\x02\x03\x04" + (b"\x05\x00\x00\x00" if vt >= (3, 3) else b"")
+        return tab, co_code, ref, labels, hdr, payload, sk
+
+    def judge_asm_old(self, case, ctx):
+        """2.3-2.6 / 3.0-3.5 byte code laid out by G-ASM, decoded by a transcription of those interpreters' fetch
+        loop (1- and 3-byte instructions, 16-bit operands, EXTENDED_ARG supplies bits 16-31)"""
+        import struct
+        from vf.magicreg import final_magics
+        from vf.ref import refmarshal as rm
+        res = Result()
+        v = case.get("v")
+        if v not in OLD_ASM:
+            res.reject = "malformed-case"
+            return res
+        built = self.old_file(ctx, v, case.get("items"))
+        if built is None:
+            res.reject = "malformed-asm: unknown opcode"
+            return res
+        tab, co_code, ref, labels, hdr, payload, sk = built
         x, err = pd.xdis_dump(hdr + payload, self.max_code(ctx))
         res.classes = ["version:" + v, "source:asmold"]
         res.sample = {"version": v, "kind": "assembled code object, harness decode as reference",
